@@ -7,12 +7,18 @@
    WHAT IS NOT: (1) that the layout the Go pretty-printer produces re-lexes to these tokens -
    tied on every run by the correspondence [tokens (format c src) = norm c (tokens src)] and by
    the re-parse oracle; (2) that the TREE the parser builds from [norm c ts] is the normalised
-   tree of [ts] ([C03_full_statement]) - needs the parser model (C02) and is checked on every
-   run by the oracle parse(format(parse s)) = parse s modulo the options; (3)
-   sort_declaration_property (the empty-line groups it sorts within are layout). *)
+   tree of [ts] for a WHOLE program ([Tree.C03_full_statement]) - proved construct by construct
+   over the parser model of C02 in module Tree below (explicit "+" both ways, remove->unset,
+   one else-if clause, return parentheses), not composed; checked on every run by the oracle
+   parse(format(parse s)) = parse s modulo the options; (3) sort_declaration_property (the
+   empty-line groups it sorts within are layout). *)
 From Coq Require Import List Bool NArith Strings.String Permutation.
 From Falco Require Import Base.Res Base.Bytes Gen.FmtConfig Model.FmtTok Model.FmtNorm
   Proofs.FmtConfigTie Proofs.FmtComments Proofs.FmtSig Proofs.FmtSort Proofs.FmtSortStream Proofs.FmtExamples.
+From Falco Require Gen.TokenTypes Model.ParseKinds Gen.ParserTables Model.ParseBase Model.Ast Model.ParseExpr
+  Model.ParseStmt Model.ParseDecl Model.Yield Proofs.ParsePratt
+  Proofs.FmtTreeExpr Proofs.FmtTreeTokens Proofs.FmtTreeTokensDel Proofs.FmtTreeStmt
+  Proofs.FmtTreeBridge Proofs.FmtTreeNorm.
 Import ListNotations.
 
 (* every configuration, every token stream (sort_declaration off: the order is kept) *)
@@ -65,16 +71,6 @@ Proof. exact (proj2 fmt_conf_reads_tie). Qed.
 Theorem C03_example : norm ex_conf ex_src = ex_out.
 Proof. exact ex_norm. Qed.
 
-(* the full property, for the record: it needs a model of the parser and of the pretty-printer's
-   layout; it is NOT proved (checked on every run by the implementation oracle) *)
-Section Full.
-  Variables (tree : Type) (parse : list byte -> res tree)
-            (format : fmt_config -> tree -> res (list byte))
-            (norm_tree : fmt_config -> tree -> tree).
-  Definition C03_full_statement : Prop :=
-    forall c src t out, parse src = OK t -> format c t = OK out -> parse out = OK (norm_tree c t).
-End Full.
-
 Print Assumptions C03_norm_significant_partial.
 Print Assumptions C03_norm_significant_sorted_partial.
 Print Assumptions C03_norm_significant_perm.
@@ -85,3 +81,166 @@ Print Assumptions C03_config_fields.
 Print Assumptions C03_config_defaults.
 Print Assumptions C03_config_reads.
 Print Assumptions C03_example.
+
+(* ======================================================================== TREE LEVEL
+   The rewrites of [norm], replayed on the parser model of C02 (Model/Parse*.v): the rewritten
+   tokens parse to the documented normalisation of the tree.  In a module because the parser model
+   and the formatter model both call their constructors St / Tok. *)
+Module Tree.
+Import Gen.TokenTypes Model.ParseKinds Gen.ParserTables Model.ParseBase Model.Ast Model.ParseExpr
+  Model.ParseStmt Model.ParseDecl Model.Yield Proofs.ParsePratt
+  Proofs.FmtTreeExpr Proofs.FmtTreeTokens Proofs.FmtTreeTokensDel Proofs.FmtTreeStmt
+  Proofs.FmtTreeBridge Proofs.FmtTreeNorm.
+Local Open Scope N_scope.
+
+(* explicit_string_concat = true.  [ins_plus false] is the token-level rewrite (a "+" between a
+   token that ends an operand and one that can start a juxtaposed operand); on the tokens of a
+   canonical tree - canonical = the image of the parser, C02_pratt_roundtrip - the rewritten tokens
+   parse, in the same context, to the same tree with every juxtaposition made explicit; the two
+   trees agree once the Explicit flag is erased.  Table fact used: doc_prec T_PLUS = 7 = the
+   precedence of every token that can be juxtaposed (Gen/ParserTables.v). *)
+Theorem C03_concat_rewrite_preserves_tree :
+  forall fok e p pv rest,
+    canon fok e -> p < minprec e -> follow_ok e rest = true -> stops p rest = true ->
+    parse_expr fok p (St pv (yexpr e ++ rest)) = POK (e, endst pv (yexpr e) rest)
+    /\ ins_plus false (yexpr e) = yexpr (mark_explicit e)
+    /\ parse_expr fok p (St pv (ins_plus false (yexpr e) ++ rest))
+       = POK (mark_explicit e, endst pv (ins_plus false (yexpr e)) rest)
+    /\ erase (mark_explicit e) = erase e.
+Proof.
+  exact (fun fok e p pv rest Hc Hp Hf Hs =>
+    match concat_explicit_preserves_tree fok e p pv rest Hc Hp Hf Hs with
+    | conj A (conj B C) =>
+        conj A (conj (ins_plus_yexpr fok e Hc)
+          (conj (eq_ind_r (fun l => parse_expr fok p (St pv (l ++ rest)) = POK (mark_explicit e, endst pv l rest))
+                          B (ins_plus_yexpr fok e Hc)) C))
+    end).
+Qed.
+
+(* explicit_string_concat = false, the converse.  [del_plus false] removes an infix "+" that is
+   followed by a token that can start a juxtaposed operand.  SIDE CONDITION, explicit in [unmark]:
+   an explicit concatenation  l + r  becomes the juxtaposition  l r  iff  t_juxt (typ (head r)),
+   i.e. r starts with IDENT / STRING / an opening long string / if; otherwise (r = 10, -x, (x), true, ...) the "+"
+   stays and so does the node. *)
+Theorem C03_concat_removal_preserves_tree :
+  forall fok e p pv rest,
+    canon fok e -> p < minprec e -> follow_ok e rest = true -> stops p rest = true ->
+    del_plus false (yexpr e) = yexpr (unmark e)
+    /\ parse_expr fok p (St pv (del_plus false (yexpr e) ++ rest))
+       = POK (unmark e, endst pv (del_plus false (yexpr e)) rest)
+    /\ erase (unmark e) = erase e.
+Proof.
+  exact (fun fok e p pv rest Hc Hp Hf Hs =>
+    match concat_juxtaposed_preserves_tree fok e p pv rest Hc Hp Hf Hs with
+    | conj B C =>
+        conj (del_plus_yexpr fok e Hc)
+          (conj (eq_ind_r (fun l => parse_expr fok p (St pv (l ++ rest)) = POK (unmark e, endst pv l rest))
+                          B (del_plus_yexpr fok e Hc)) C)
+    end).
+Qed.
+
+Theorem C03_unmark_side_condition :
+  forall l op r, unmark (EInfix l op true r)
+    = if t_juxt (typ (head r)) then EConcat (unmark l) (unmark r) else EInfix (unmark l) op true (unmark r).
+Proof. exact (fun l op r => eq_refl). Qed.
+
+(* the decisions of Model/FmtNorm.v [normal] inside an expression ARE those of ins_plus / del_plus
+   (kind table of the formatter model against the parser's token types) *)
+Theorem C03_concat_decision_bridge :
+  forall c s t nk ty,
+    kind_tt (FmtTok.tk t) = Some ty -> FmtNorm.inexpr (FmtNorm.mode s) = true ->
+    FmtNorm.normal c s t nk =
+      if FmtTok.explicit_string_concat c
+      then (if FmtNorm.pe s && t_juxt ty then FmtNorm.AInsBefore FmtTok.t_plus else FmtNorm.AKeep)
+      else (if FmtNorm.pe s && is_plus ty && FmtNorm.nk_juxt nk then FmtNorm.ADrop FmtNorm.PNone
+            else FmtNorm.AKeep).
+Proof. exact normal_in_expr. Qed.
+
+Theorem C03_token_bridge :
+  forall ty, ty <> T_ERROR -> ty <> T_RESTART ->
+    FmtTok.juxt (kind_of_ttype ty) = t_juxt ty /\ FmtTok.opend (kind_of_ttype ty) = t_opend ty
+    /\ FmtTok.kis (kind_of_ttype ty) FmtTok.KPlus = is_plus ty.
+Proof. exact bridge_agree. Qed.
+
+(* should_use_unset: one keyword token replaced; same identifier, same semicolon, same end state,
+   and the same error when the statement is malformed *)
+Theorem C03_remove_to_unset_preserves_tree :
+  forall fok n pv c kw u rest,
+    typ kw = T_REMOVE -> typ u = T_UNSET ->
+    pstmt fok (S n) (St pv (c :: u :: rest)) = unset_of u (pstmt fok (S n) (St pv (c :: kw :: rest))).
+Proof. exact remove_to_unset. Qed.
+
+(* else_if: one clause of the chain.  `elseif (c) {..}` / `elsif (c) {..}` and `else if (c) {..}`
+   parse the same clause and continue from the same state; only the keyword fields differ
+   (Elif E None .. -> Elif else (Some if) ..).  PARTIAL: one clause, not the whole program - the
+   composition over nested blocks is in C03_full_statement. *)
+Theorem C03_elseif_to_else_if_partial :
+  forall fok n pv x E el i R acc,
+    (typ E = T_ELSEIF \/ typ E = T_ELSIF) -> typ el = T_ELSE -> typ i = T_IF ->
+    let r := pelif fok n E None (St (Some x) (E :: R)) in
+    pif_chain fok (S n) (St pv (x :: E :: R)) acc
+      = pbind r (fun es => pif_chain fok n (snd es) (fst es :: acc))
+    /\ pif_chain fok (S n) (St pv (x :: el :: i :: R)) acc
+      = pbind (elif_kw el (Some i) r) (fun es => pif_chain fok n (snd es) (fst es :: acc)).
+Proof. exact elseif_to_else_if. Qed.
+
+(* return_statement_parenthesis, both directions: `return e;` and `return (e);` give the same
+   expression tree; only ParenthesisLeading/Trailing differ.  Side condition of the bare form:
+   e does not start with "(" (the formatter's startsWithGroup test). *)
+Theorem C03_return_parenthesis_preserves_tree :
+  forall fok n pv c kw lp rp sm e rest,
+    typ kw = T_RETURN -> typ lp = T_LEFT_PAREN -> typ rp = T_RIGHT_PAREN -> typ sm = T_SEMICOLON ->
+    canon fok e -> 1 < minprec e -> typ (head e) <> T_LEFT_PAREN ->
+    pstmt fok (S n) (St pv (c :: kw :: yexpr e ++ sm :: rest))
+      = POK (SReturn kw (Some (None, e, None)) sm, St (Some (last (yexpr e) eof_tok)) (sm :: rest))
+    /\ pstmt fok (S n) (St pv (c :: kw :: lp :: yexpr e ++ rp :: sm :: rest))
+      = POK (SReturn kw (Some (Some lp, e, Some rp)) sm, St (Some rp) (sm :: rest)).
+Proof.
+  exact (fun fok n pv c kw lp rp sm e rest Hk Hl Hr Hs Hc Hm Hh =>
+    conj (return_plain fok n pv c kw sm e rest Hk Hs Hc Hm Hh)
+         (return_parenthesised fok n pv c kw lp rp sm e rest Hk Hl Hr Hs Hc Hm)).
+Qed.
+
+(* THE FULL PROPERTY over the real parser model ([parse_vcl], Model/ParseDecl.v), the real token
+   model of the formatter ([norm]) and the documented tree normalisation ([norm_vcl],
+   Proofs/FmtTreeNorm.v); [to_tok] is the lexer-kind table of ocaml/fmt_main.ml.  It is a
+   Definition: NOT proved as a whole.
+
+   PROVED (theorems above), each for a single construct in an arbitrary context:
+     - explicit "+" inserted              C03_concat_rewrite_preserves_tree      (nexpr, flag true)
+     - explicit "+" removed               C03_concat_removal_preserves_tree      (nexpr, flag false)
+     - the "+" decisions of [normal]      C03_concat_decision_bridge, C03_token_bridge
+     - remove -> unset                    C03_remove_to_unset_preserves_tree     (nstmt SRemove)
+     - elseif / elsif -> else if          C03_elseif_to_else_if_partial          (nelif, one clause)
+     - return x <-> return (x)            C03_return_parenthesis_preserves_tree  (nret)
+   REMAINING:
+     - composition: a whole program is a nest of these constructs; needs an induction over
+       pstmt / pblock / pif / pswitch / parse_decl carrying "the rewritten remainder parses to the
+       normalised remainder" (every expression context must satisfy follow_ok / stops, which
+       C02_parse_stmt_yield does not give: it is the yield direction only);
+     - that [run] threads its state so that inside an expression it IS ins_plus / del_plus (the
+       decisions are bridged, the state machine of modes is not), and that `error` / `restart`
+       used as names end an operand (they do for the parser, not for Model/FmtTok.v [opend]);
+     - trailing comma of a table (ntprop), empty () of call / sub (nstmt SCall / DSub): no
+       token-level theorem on the parser model yet;
+     - sort_declaration = true (the statement below excludes it; token level:
+       C03_norm_significant_sorted_partial) and sort_declaration_property (not in the model);
+     - the layout: that the text the pretty-printer writes lexes to [norm c ts]. *)
+Definition C03_full_statement : Prop :=
+  forall fok c ts v,
+    FmtTok.sort_declaration c = false ->
+    parse_vcl fok ts = POK v ->
+    exists ts',
+      map to_tok ts' = FmtTok.significant (FmtNorm.norm c (to_elts ts))
+      /\ parse_vcl fok ts' = POK (norm_vcl c v).
+
+Print Assumptions C03_concat_rewrite_preserves_tree.
+Print Assumptions C03_concat_removal_preserves_tree.
+Print Assumptions C03_unmark_side_condition.
+Print Assumptions C03_concat_decision_bridge.
+Print Assumptions C03_token_bridge.
+Print Assumptions C03_remove_to_unset_preserves_tree.
+Print Assumptions C03_elseif_to_else_if_partial.
+Print Assumptions C03_return_parenthesis_preserves_tree.
+End Tree.
+
